@@ -184,3 +184,122 @@ func runMovedWorld(r *lib.Run, idx int) {
 	r.Distinct(fmt.Sprintf("moved-endpoint|%s|%d", kind, idx))
 	noteClass("moved_endpoint_change_kinds_installed", kind)
 }
+
+
+// runMovedDuringCheckWorld: the newer record (other endpoint) reaches R through a third party - as a lookup result
+// would - while one of R's own liveness checks to the OLD endpoint is in flight; the old endpoint then answers. The
+// answer proves nothing about the new endpoint.
+func runMovedDuringCheckWorld(r *lib.Run, idx int) {
+	rng := r.RNG("moved-during-check", idx)
+	hub := pnode.NewHub()
+	rAddr := pnode.Addr4(10, 31, byte(idx), 1, 9000)
+	R, err := hub.StartNode(pnode.NodeOpts{Key: pnode.NewKey(rng), Addr: rAddr, RespTimeout: 1500 * time.Millisecond})
+	if err != nil {
+		r.FloorMiss("moved-during-check world %d: start R: %v", idx, err)
+		return
+	}
+	defer R.Stop()
+	var mu sync.Mutex
+	heard := map[netip.AddrPort]int{}
+	hub.SetTap(func(d pnode.Datagram, _ []byte) {
+		if d.Dst == rAddr {
+			mu.Lock()
+			heard[d.Src]++
+			mu.Unlock()
+		}
+	})
+	heardFrom := func(ep netip.AddrPort) int { mu.Lock(); defer mu.Unlock(); return heard[ep] }
+	proto := string(portalwire.History)
+	oldEP := pnode.Addr4(10, 31, byte(idx), 2, 9301)
+	newEP := netip.AddrPortFrom(oldEP.Addr(), 9556)
+	if idx%2 == 1 {
+		newEP = pnode.Addr4(10, 31, byte(idx), 3, 9301)
+	}
+	ykey := pnode.NewKey(rng)
+	Y, err := hub.StartAdversary(pnode.AdvOpts{Key: ykey, Addr: oldEP, RespTimeout: 300 * time.Millisecond})
+	if err != nil {
+		r.FloorMiss("moved-during-check world %d: start Y: %v", idx, err)
+		return
+	}
+	defer Y.Stop()
+	tab := R.P.VerifTable()
+	var armed, fired atomicBool
+	newRec := pnode.SignedNode(ykey, newEP.Addr(), int(newEP.Port()), Y.Self().Seq()+1)
+	Y.OnTalk(proto, func(_ *enode.Node, _ *net.UDPAddr, msg []byte) []byte {
+		if len(msg) > 0 && msg[0] == 0x00 {
+			if armed.get() && !fired.get() {
+				fired.set(true)
+				// R's check of the old endpoint is in flight right now: the newer record arrives from elsewhere
+				tab.VerifAddFound(newRec, false)
+			}
+			return pongEcho(Y.Self().Seq(), msg) // the old endpoint answers; its sequence number is the old one
+		}
+		if _, ok := decFindNodes(msg); ok {
+			return encNodes(1, nil)
+		}
+		return nil
+	})
+	A, err := hub.StartAdversary(pnode.AdvOpts{Key: pnode.NewKey(rng), Addr: pnode.Addr4(10, 31, byte(idx), 9, 9102), RespTimeout: 300 * time.Millisecond})
+	if err != nil {
+		r.FloorMiss("moved-during-check world %d: start asker: %v", idx, err)
+		return
+	}
+	defer A.Stop()
+	if _, err := R.P.VerifPing(Y.Self()); err != nil {
+		r.Inconclusive("moved-during-check world %d: R's ping of the peer was not answered: %v", idx, err)
+		return
+	}
+	yid := Y.Self().ID()
+	armed.set(true)
+	// scheduling only: wait for R's own revalidation to ping the peer again (3 s ping interval)
+	deadline := time.Now().Add(45 * time.Second)
+	for !fired.get() && time.Now().Before(deadline) {
+		time.Sleep(20 * time.Millisecond)
+	}
+	if !fired.get() {
+		r.Count("moved_during_check_worlds_not_reached_info", 1)
+		return
+	}
+	time.Sleep(150 * time.Millisecond) // the answer is processed
+	r.Count("moved_during_check_worlds_reached", 1)
+	r.Distinct(fmt.Sprintf("moved-during-check|%d", idx))
+	dist := uint16(refLogDist(R.ID(), yid))
+	for k := 0; k < 4; k++ {
+		reply, err := A.Talk(R.Self(), proto, encFindNodes([]uint16{dist}))
+		r.Eval(1)
+		if err != nil || len(reply) == 0 {
+			continue
+		}
+		_, items, err := decNodes(reply)
+		if err != nil {
+			continue
+		}
+		for _, it := range items {
+			var rec enr.Record
+			if rlp.DecodeBytes(it, &rec) != nil {
+				continue
+			}
+			n, err := enode.New(enode.ValidSchemesForTesting, &rec)
+			if err != nil || n.ID() != yid {
+				continue
+			}
+			ep := endpointOf(n)
+			if heardFrom(ep) > 0 {
+				continue
+			}
+			report(r, sigMovedEndpoint+":answer-from-old-endpoint-in-flight", fmt.Sprintf("R offers the record (seq %d) of peer %s with endpoint %s although no datagram from %s was ever addressed to R: the record arrived through a third party while R's check of the old endpoint %s was in flight, and the old endpoint's answer was booked for it",
+				n.Seq(), yid.TerminalString(), ep, ep, oldEP),
+				map[string]any{"world": idx, "checked_endpoint": oldEP.String(), "offered_endpoint": ep.String(), "offered_seq": n.Seq(), "datagrams_from_offered_endpoint_to_R": 0})
+			return
+		}
+		time.Sleep(50 * time.Millisecond)
+	}
+}
+
+type atomicBool struct {
+	mu sync.Mutex
+	v  bool
+}
+
+func (a *atomicBool) get() bool  { a.mu.Lock(); defer a.mu.Unlock(); return a.v }
+func (a *atomicBool) set(v bool) { a.mu.Lock(); a.v = v; a.mu.Unlock() }
